@@ -200,7 +200,8 @@ def worker_main(argv: list[str]) -> int:
 def _env() -> dict:
     env = dict(os.environ)
     env["PYTHONHASHSEED"] = "0"
-    env["PYTHONPATH"] = VERIF + os.pathsep + env.get("PYTHONPATH", "")
+    repo = env.get("VERIF_REPO")
+    env["PYTHONPATH"] = (repo + os.pathsep if repo else "") + VERIF + os.pathsep + env.get("PYTHONPATH", "")
     env["OMP_NUM_THREADS"] = "1"
     env["MKL_NUM_THREADS"] = "1"
     env["PYTHONWARNINGS"] = "ignore"
